@@ -11,11 +11,16 @@ from hypothesis import strategies as st
 from vlib.hyp import Failure, Outcome, Stats, search, derive_seed
 
 RULE = ('cases = (solver in the 11 functions or dispatch method 0..10, '
-        'rho_l, rho_r, p_l, p_r log-uniform over [1e-6,1e6] incl. equal sides '
-        'and extreme ratios, u_l,u_r in multiples of the sound speed, gamma '
-        'in (1,3], niter in [1,100], tol in [1e-12,1e-2]). Non-trivial = '
-        'sides differ (p_l != p_r or u_l != u_r) and the solver reports '
-        'success; distinct by case hash.')
+        'rho_l, rho_r, p_l, p_r log-uniform over [1e-6,1e6] incl. equal '
+        'sides, one equal quantity (p, rho or u), mirror-symmetric data, extreme '
+        'ratios, vacuum-generating and nearly vacuum-generating velocities, '
+        'u_l,u_r in multiples of the sound speed, gamma in (1,3], niter in '
+        '[1,100], tol in [1e-12,1e-2]); every case runs as Python (double and '
+        '60-digit, positional or keyword call, result buffer pre-filled with '
+        'garbage) and through the transpiled riemann_solve of a compiled '
+        'equation (checks/c15_eqs.py). Non-trivial = sides differ (p_l != '
+        'p_r or u_l != u_r) and the solver reports success; distinct by case '
+        'hash.')
 ASSUMPTIONS = [
     'an exception raised by the pure-Python helper paths (printf with two '
     'arguments, math domain errors where C would give NaN) is treated as '
@@ -25,13 +30,34 @@ ASSUMPTIONS = [
     '4 eps (conditioning), plus 20*tol for the iterative solvers',
     'return codes of iterative solvers are compared only when both partners '
     'are non-borderline (same code again with niter+5, 4*tol)',
+    'the transpiled solver (same source, compiled) must return the Python '
+    'return code (iterative solvers: one of the codes Python returns for '
+    'niter+-1, tol*(1+-1e-6) and the 8 perturbed inputs) and the Python '
+    'star state within the same conditioning-aware tolerance; where Python '
+    'raises (see above) only the documented codes 0/1, admissibility and '
+    'the residual of the exact solver are asserted of the transpiled run',
+    'mirror-symmetric data (left state = reflected right state) is its own '
+    'reflection partner: reflection symmetry then means u* = 0',
+    'documented return codes are 0 and 1 (docstrings)',
 ]
 SOLVERS = ['non_diffusive', 'van_leer', 'exact', 'hllc', 'ducowicz', 'hlle',
            'roe', 'llxf', 'hllc_ball', 'hll_ball', 'hllsy']
 ITERATIVE = {'van_leer', 'exact'}
 ESSENTIAL_LABELS = {'all': ['ok:' + s for s in SOLVERS] +
+                    ['transpiled_ok:' + s for s in SOLVERS] +
                     ['equal_sides', 'vacuum', 'dispatch', 'extreme_ratio',
-                     'galilean', 'scaling', 'residual_checked']}
+                     'galilean', 'scaling', 'residual_checked',
+                     'residual_checked:transpiled', 'kind:eqp', 'kind:eqrho',
+                     'kind:equ', 'kind:mirror', 'kind:near_vacuum',
+                     'call:keywords', 'pattern:RR', 'pattern:SS',
+                     'pattern:RS', 'pattern:SR', 'guess:pvrs', 'guess:trrs',
+                     'guess:tsrs', 'ball:q00', 'ball:q01', 'ball:q10',
+                     'ball:q11', 'transpiled:compared',
+                     'transpiled:failure_code']}
+METHOD = {'non_diffusive': 0, 'van_leer': 1, 'exact': 2, 'hllc': 3,
+          'ducowicz': 4, 'hlle': 5, 'roe': 6, 'llxf': 7, 'hllc_ball': 8,
+          'hll_ball': 9, 'hllsy': 10}
+GARBAGE = (7.25, -3.5)
 EPSM = 2.0 ** -52
 
 
@@ -74,26 +100,37 @@ def mp_module():
     return _MPNS['ns']
 
 
-def call(name, a, niter=None, tol=None, method=None, mode='float'):
+def call(name, a, niter=None, tol=None, method=None, mode='float',
+         keywords=False):
     """-> (rc, p*, u*) ; exceptions of the pure-python failure paths are
-    mapped to rc = 'exc'."""
+    mapped to rc = 'exc'.  The result buffer holds garbage on entry (the
+    callers re-use one buffer: gsph.GSPHAcceleration.loop calls the solver
+    twice on the same `result`)."""
     if mode == 'mp':
         import mpmath as mp
         mp.mp.dps = 60
         rs = mp_module()
-        res = [mp.mpf(0), mp.mpf(0)]
+        res = [mp.mpf(GARBAGE[0]), mp.mpf(GARBAGE[1])]
         a = dict(a)
         for k in ('rhol', 'rhor', 'pl', 'pr', 'ul', 'ur', 'gamma'):
             a[k] = mp.mpf(a[k])
     else:
         from pysph.sph.gas_dynamics import riemann_solver as rs
-        res = [0.0, 0.0]
+        res = [GARBAGE[0], GARBAGE[1]]
     ni = a['niter'] if niter is None else niter
     tl = a['tol'] if tol is None else tol
     args = (a['rhol'], a['rhor'], a['pl'], a['pr'], a['ul'], a['ur'],
             a['gamma'], ni, tl, res)
     try:
-        if method is not None:
+        if keywords:
+            kw = dict(rhol=a['rhol'], rhor=a['rhor'], pl=a['pl'], pr=a['pr'],
+                      ul=a['ul'], ur=a['ur'], gamma=a['gamma'], niter=ni,
+                      tol=tl, result=res)
+            if method is not None:
+                rc = rs.riemann_solve(method=method, **kw)
+            else:
+                rc = getattr(rs, name)(**kw)
+        elif method is not None:
             rc = rs.riemann_solve(method, *args)
         else:
             rc = getattr(rs, name)(*args)
@@ -136,6 +173,100 @@ def scales(a):
     return max(a['pl'], a['pr']), max(cl, cr, abs(a['ul']), abs(a['ur']))
 
 
+# ------------------------------------------------------- transpiled solvers
+_EV = {}
+
+
+def evaluator():
+    """(SPHEvaluator, particle array) running checks/c15_eqs.RiemannProbe
+    over 3 particles (case, reflected case, a fixed shock tube), or
+    ('error', text) when the probe cannot be built."""
+    if 'ev' not in _EV:
+        try:
+            import numpy as np
+            from pysph.base.utils import get_particle_array
+            from pysph.sph.equation import Group
+            from pysph.tools.sph_evaluator import SPHEvaluator
+            from checks.c15_eqs import RiemannProbe, DPROPS, IPROPS
+            K = 3
+            pa = get_particle_array(name='rp', x=np.arange(K) * 1.0,
+                                    y=np.zeros(K), z=np.zeros(K),
+                                    h=np.ones(K))
+            for k in DPROPS:
+                pa.add_property(k)
+            for k in IPROPS:
+                pa.add_property(k, type='int')
+            ev = SPHEvaluator(
+                [pa], [Group(equations=[RiemannProbe(dest='rp',
+                                                     sources=None)])],
+                dim=1)
+            _EV['ev'] = (ev, pa)
+        except SystemExit as ex:
+            _EV['ev'] = ('error', 'JIT build of the probe equation calling '
+                         'riemann_solve with HELPERS failed (exit %r)' % (
+                             ex.code,))
+        except Exception as ex:
+            _EV['ev'] = ('error', repr(ex))
+    return _EV['ev']
+
+
+SOD = dict(rhol=1.0, rhor=0.125, pl=1.0, pr=0.1, ul=0.0, ur=0.0, gamma=1.4,
+           niter=20, tol=1e-6)
+
+
+def transpiled(method, a, b):
+    """Run problems a, b (and the fixed tube) through the compiled
+    riemann_solve -> ([(rc, p*, u*)] * 3, number of exceptions swallowed by
+    the generated nogil code) or None when the probe is not available."""
+    import sys
+    ev, pa = evaluator()
+    if ev == 'error':
+        return None
+    from checks.c15_eqs import GARBAGE as G
+    for i, q in enumerate((a, b, SOD)):
+        pa.rhol[i] = q['rhol']
+        pa.rhor[i] = q['rhor']
+        pa.pl[i] = q['pl']
+        pa.pr[i] = q['pr']
+        pa.ul[i] = q['ul']
+        pa.ur[i] = q['ur']
+        pa.gam[i] = q['gamma']
+        pa.rtol[i] = q['tol']
+        pa.niter[i] = q['niter']
+        pa.method[i] = method if i < 2 else 2
+    pa.rc[:] = -9.0
+    pa.ps[:] = G[0]
+    pa.us[:] = G[1]
+    swallowed = []
+    hook = sys.unraisablehook
+    sys.unraisablehook = lambda u: swallowed.append(1)
+    try:
+        ev.evaluate()
+    finally:
+        sys.unraisablehook = hook
+    out = []
+    for i in range(3):
+        rc = float(pa.rc[i])
+        out.append((int(rc) if rc == int(rc) else rc, float(pa.ps[i]),
+                    float(pa.us[i])))
+    return out, len(swallowed)
+
+
+def py_rc_set(name, a):
+    """Return codes of the Python solver next to (niter, tol, data)."""
+    out = set()
+    for ni in (a['niter'] - 1, a['niter'], a['niter'] + 1):
+        if ni >= 1:
+            for tl in (a['tol'] * (1 - 1e-6), a['tol'], a['tol'] * (1 + 1e-6)):
+                out.add(call(name, a, niter=ni, tol=tl)[0])
+    for pat in PERT:
+        b = dict(a)
+        for k, sg in zip(('rhol', 'rhor', 'pl', 'pr', 'ul', 'ur'), pat):
+            b[k] = a[k] * (1.0 + 4 * EPSM * sg)
+        out.add(call(name, b)[0])
+    return out
+
+
 # ----------------------------------------------- Toro's pressure function
 def toro_f(p, rho, pk, gamma):
     """f_K(p) and its derivative, Toro (2009) eq. 4.6/4.7 and 4.37."""
@@ -161,7 +292,8 @@ def case_strategy(draw):
     lg = st.floats(-6, 6)
     kind = draw(st.sampled_from(['generic', 'generic', 'generic', 'equal',
                                  'extreme', 'vacuum', 'moderate',
-                                 'moderate']))
+                                 'moderate', 'eqp', 'eqrho', 'equ', 'mirror',
+                                 'near_vacuum']))
     if kind == 'moderate':
         rhol = 10.0 ** draw(st.floats(-1, 1))
         rhor = 10.0 ** draw(st.floats(-1, 1))
@@ -170,7 +302,7 @@ def case_strategy(draw):
     else:
         rhol = 10.0 ** draw(lg)
         pl = 10.0 ** draw(lg)
-        if kind == 'equal':
+        if kind == 'equal' or kind == 'mirror':
             rhor, pr = rhol, pl
         elif kind == 'extreme':
             rhor = rhol * 10.0 ** draw(st.sampled_from([-6, -4, 4, 6]))
@@ -178,6 +310,12 @@ def case_strategy(draw):
         else:
             rhor = 10.0 ** draw(lg)
             pr = 10.0 ** draw(lg)
+            # exactly one quantity equal on both sides (ties of the
+            # shock / rarefaction decisions p* <= p_K, H > 1, max(c_l, c_r))
+            if kind == 'eqp':
+                pr = pl
+            elif kind == 'eqrho':
+                rhor = rhol
     gamma = draw(st.sampled_from([1.4, 5.0 / 3.0, 2.0, 3.0, 1.01, 1.1]) |
                  st.floats(1.001, 3.0))
     cl = math.sqrt(gamma * pl / rhol)
@@ -188,20 +326,34 @@ def case_strategy(draw):
     elif kind == 'vacuum':
         ul = cs * draw(st.floats(-2, 2))
         ur = ul + 2 * (cl + cr) / (gamma - 1) * draw(st.floats(1.001, 5.0))
+    elif kind == 'near_vacuum':
+        # strong double rarefaction just short of generating a vacuum
+        ul = cs * draw(st.floats(-2, 2))
+        ur = ul + 2 * (cl + cr) / (gamma - 1) * draw(
+            st.sampled_from([0.5, 0.9, 0.99, 0.999, 0.9999]) |
+            st.floats(0.3, 0.9999))
     else:
         mk = draw(st.sampled_from(['zero', 'sub', 'sub', 'super', 'big']))
         m = {'zero': 0.0, 'sub': 0.9, 'super': 5.0, 'big': 1e3}[mk]
         ul = cs * m * draw(st.floats(-1, 1))
         ur = cs * m * draw(st.floats(-1, 1))
+        if kind == 'equ':
+            ur = ul
+        elif kind == 'mirror':
+            # the data is its own mirror image (colliding or receding)
+            if mk == 'zero':
+                ul = cs * draw(st.floats(-1.5, 1.5))
+            ur = -ul
     niter = draw(st.sampled_from([20, 20, 50, 100, 5, 2, 1]) |
                  st.integers(1, 100))
     tol = 10.0 ** draw(st.floats(-12, -2))
     shift = cs * draw(st.sampled_from([0.5, -1.0, 3.0, 100.0])) * \
         draw(st.floats(0.1, 1.0))
     lam = 10.0 ** draw(st.floats(-4, 4))
+    kw = draw(st.sampled_from([False, False, True]))
     return dict(solver=solver, via=via, kind=kind, rhol=rhol, rhor=rhor,
                 pl=pl, pr=pr, ul=ul, ur=ur, gamma=gamma, niter=niter,
-                tol=tol, shift=shift, lam=lam)
+                tol=tol, shift=shift, lam=lam, keywords=kw)
 
 
 def check(case):
@@ -219,11 +371,21 @@ def check(case):
     method = None
     if case['via'] == 'dispatch':
         # documented numbering of riemann_solve
-        method = {'non_diffusive': 0, 'van_leer': 1, 'exact': 2, 'hllc': 3,
-                  'ducowicz': 4, 'hlle': 5, 'roe': 6, 'llxf': 7,
-                  'hllc_ball': 8, 'hll_ball': 9, 'hllsy': 10}[name]
+        method = METHOD[name]
         labels.append('dispatch')
     rc, p, u = call(name, a, method=method)
+
+    def same(x, y):
+        return x == y or (x != x and y != y)
+    if case.get('keywords'):
+        # documented parameter names: the keyword call is the same call
+        labels.append('call:keywords')
+        krc, kp, ku = call(name, a, method=method, keywords=True)
+        if not (krc == rc and same(kp, p) and same(ku, u)):
+            F('call_form', 'keyword call -> %r but positional call -> %r' % (
+                (krc, kp, ku), (rc, p, u)))
+    if case['kind'] in ('eqp', 'eqrho', 'equ', 'mirror', 'near_vacuum'):
+        labels.append('kind:' + case['kind'])
     if method is not None:
         rcd, pd, ud = call(name, a)
         same = (rcd == rc) and (
@@ -248,6 +410,30 @@ def check(case):
         labels.append('extreme_ratio')
     if rc == 'exc':
         labels.append('py_exception_as_failure')
+    for which, xrc in (('float', rc), ('mp', mrc)):
+        if not (xrc == 'exc' or (isinstance(xrc, int) and xrc in (0, 1))):
+            F('return_code', '%s run returned %r (documented: 0 or 1)' % (
+                which, xrc), run=which)
+    # ---- which branches of the solver the data reaches (labels only)
+    if name == 'exact' and not vacuum:
+        cup = 0.25 * (a['rhol'] + a['rhor']) * (cl + cr)
+        ppv = max(0.0, 0.5 * (a['pl'] + a['pr']) +
+                  0.5 * (a['ul'] - a['ur']) * cup)
+        pmn, pmx = min(a['pl'], a['pr']), max(a['pl'], a['pr'])
+        if pmx / pmn <= 2.0 and pmn <= ppv <= pmx:
+            labels.append('guess:pvrs')
+        elif ppv < pmn:
+            labels.append('guess:trrs')
+        else:
+            labels.append('guess:tsrs')
+        if mrc == 0 and mp.isfinite(mpp):
+            labels.append('pattern:' + ('R' if mpp <= a['pl'] else 'S') +
+                          ('R' if mpp <= a['pr'] else 'S'))
+    if name == 'hllc_ball':
+        pprov = 0.5 * (a['pl'] + a['pr'] - 0.5 * (a['rhol'] + a['rhor']) *
+                       0.5 * (cl + cr) * (a['ur'] - a['ul']))
+        labels.append('ball:q%d%d' % (pprov / a['pl'] > 1,
+                                      pprov / a['pr'] > 1))
 
     def fin(x):
         return mp.isfinite(x)
@@ -275,9 +461,18 @@ def check(case):
             F('reflection', 'u*=%s but the reflected problem gives %s '
               '(same code in 60-digit arithmetic)' % (
                   mp.nstr(mpu, 17), mp.nstr(bu, 17)), quantity='u')
+    # ---- data that is its own mirror image: u* = -u*
+    if mrc == 0 and all(a[k] == b[k] for k in ('rhol', 'rhor', 'pl', 'pr',
+                                                'ul', 'ur')):
+        labels.append('mirror_data')
+        ttol = mp.mpf(20 * a['tol']) if it else mp.mpf(0)
+        if not fin(mpu) or abs(mpu) > (T * mp.mpf('1e10') + ttol) * US:
+            F('reflection', 'mirror-symmetric data but u*=%s (same code in '
+              '60-digit arithmetic)' % mp.nstr(mpu, 17), quantity='u_mirror')
     # ---- reflection symmetry of the double-precision run: partners agree
     # within their own measured rounding errors
     frc, fp, fu = call(name, b)
+    sp = su = None
     if rc == 0 and frc == 0 and mrc == 0 and brc == 0 and \
             math.isfinite(p) and math.isfinite(fp):
         sp, su = sensitivity(name, a)
@@ -292,6 +487,87 @@ def check(case):
         if abs(u + fu) > tu:
             F('reflection_float', 'u*=%r but reflected problem gives %r '
               '(tol %.3g)' % (u, fu, tu), quantity='u')
+    # ---- the transpiled solvers (reached through riemann_solve, as the
+    # GSPH equation does): same codes, same star state as the Python run
+    tr = transpiled(METHOD[name], a, b)
+    c_a = None
+    if tr is None:
+        F('transpiled_build', evaluator()[1])
+    else:
+        (c_a, c_b, c_sod), swallowed = tr
+        sw_a = sw_b = 0
+        if swallowed:
+            # KNOWN DEFECT of the unchanged tree (reported, replay
+            # /var/tmp/audC08/C15-transpiled-exact-swallowed-pow.json): the
+            # generated Cython evaluates `x**y` with Python semantics; where
+            # Python raises (negative or denormal Newton iterate in
+            # prefun_exact) the noexcept helper returns without writing its
+            # result and `exact` goes on with stale f, f'.  Which problem did
+            # that is found by running each one alone.
+            labels.append('transpiled:swallowed_exception')
+            sw_a = transpiled(METHOD[name], a, SOD)[1]
+            sw_b = transpiled(METHOD[name], SOD, b)[1]
+        src, sps, sus = call('exact', SOD)
+        if src == 0 and not (c_sod[0] == 0 and
+                             abs(c_sod[1] - sps) <= 1e-9 and
+                             abs(c_sod[2] - sus) <= 1e-9):
+            F('transpiled', 'fixed shock tube next to the case: transpiled '
+              'exact -> %r but Python -> %r' % (c_sod, (src, sps, sus)),
+              quantity='neighbour')
+        for tag, A, py, cc in (('case', a, (rc, p, u), c_a),
+                               ('reflected', b, (frc, fp, fu), c_b)):
+            prc, pp, pu = py
+            crc, cp, cu = cc
+            if crc == 0 and (sw_a if tag == 'case' else sw_b):
+                # exactly the class of the known defect: success reported
+                # by a run that swallowed an exception; nothing is asserted
+                # of it (counted)
+                labels.append('transpiled:excluded_success_after_'
+                              'swallowed_exception')
+                if tag == 'case':
+                    c_a = None
+                continue
+            if crc not in (0, 1):
+                F('return_code', 'transpiled run returned %r (documented: 0 '
+                  'or 1)' % (crc,), run='transpiled')
+            if crc == 0:
+                labels.append('transpiled_ok:' + name)
+            if it and crc == 0 and not (math.isfinite(cp) and cp > 0 and
+                                        math.isfinite(cu)):
+                F('admissible', 'transpiled run: success reported with '
+                  'p*=%r u*=%r' % (cp, cu), run='transpiled')
+            if prc == 'exc':
+                labels.append('transpiled:py_exception')
+                continue
+            if crc != prc:
+                if it and crc in py_rc_set(name, A):
+                    labels.append('transpiled:rc_borderline')
+                else:
+                    F('transpiled', '%s problem: transpiled return code %r '
+                      'but Python %r' % (tag, crc, prc), quantity='rc')
+                continue
+            if crc != 0:
+                labels.append('transpiled:failure_code')
+                continue
+            if not (math.isfinite(pp) and math.isfinite(pu)):
+                labels.append('transpiled:py_nonfinite')
+                continue
+            if tag == 'case':
+                if sp is None:
+                    sp, su = sensitivity(name, a)
+                s_p, s_u = sp, su
+            else:
+                s_p, s_u = sensitivity(name, A)
+            ttol = 20 * a['tol'] if it else 0.0
+            tp = max(1e-10 * pscale, 200 * s_p) + ttol * pscale
+            tu = max(1e-10 * uscale, 200 * s_u) + ttol * uscale
+            labels.append('transpiled:compared')
+            if not abs(cp - pp) <= tp:
+                F('transpiled', '%s problem: transpiled p*=%r but Python '
+                  'p*=%r (tol %.3g)' % (tag, cp, pp, tp), quantity='p')
+            if not abs(cu - pu) <= tu:
+                F('transpiled', '%s problem: transpiled u*=%r but Python '
+                  'u*=%r (tol %.3g)' % (tag, cu, pu, tu), quantity='u')
     # ---- equal sides
     if case['kind'] == 'equal':
         labels.append('equal_sides')
@@ -367,8 +643,13 @@ def check(case):
         if vacuum and (rc == 0 or mrc == 0):
             F('vacuum', 'vacuum-generating data but success reported '
               '(p*=%r)' % p)
-        for which, (xrc, xp, xu) in (('float', (rc, p, u)),
-                                    ('mp', (mrc, mpp, mpu))):
+        if vacuum and c_a is not None and c_a[0] == 0:
+            F('vacuum', 'vacuum-generating data but the transpiled run '
+              'reports success (p*=%r)' % c_a[1], run='transpiled')
+        runs = [('float', (rc, p, u)), ('mp', (mrc, mpp, mpu))]
+        if c_a is not None:
+            runs.append(('transpiled', c_a))
+        for which, (xrc, xp, xu) in runs:
             if xrc != 0 or not (mp.isfinite(xp) and xp > 0):
                 continue
             fl, fdl = toro_f(xp, a['rhol'], a['pl'], a['gamma'])
@@ -377,17 +658,19 @@ def check(case):
             mag = abs(fl) + abs(fr) + abs(a['ur']) + abs(a['ul']) + \
                 2 * (cl + cr) / (a['gamma'] - 1)
             bound = 10 * a['tol'] * xp * (fdl + fdr)
-            if which == 'float':
+            if which != 'mp':
                 bound += 64 * EPSM * mag
             else:
                 bound += mp.mpf('1e-40') * mag
             labels.append('residual_checked')
+            if which == 'transpiled':
+                labels.append('residual_checked:transpiled')
             if resid > bound:
                 F('residual', '%s run: f_l+f_r+du = %s at p*=%s exceeds %s '
                   '(tol=%g)' % (which, mp.nstr(resid, 6), mp.nstr(xp, 17),
                                 mp.nstr(bound, 6), a['tol']), run=which)
             ustar = (mp.mpf(a['ul']) + mp.mpf(a['ur']) + fr - fl) / 2
-            ut = mp.mpf(1e-9) * mag if which == 'float' else \
+            ut = mp.mpf(1e-9) * mag if which != 'mp' else \
                 mp.mpf('1e-30') * mag
             if abs(ustar - xu) > ut + 10 * a['tol'] * mag:
                 F('ustar', '%s run: u*=%s but 0.5(ul+ur+fr-fl)=%s' % (
@@ -406,6 +689,20 @@ def execute(case):
 def plan(ctx):
     n = 20000 if ctx['tier'] == 'quick' else 2000000
     k = 16
+    # compile the probe equation once, before the shards start (they then
+    # all load the cached module)
+    import os
+    import subprocess
+    import sys
+    try:
+        subprocess.run([sys.executable, '-c',
+                        'from checks.c15_riemann import evaluator; '
+                        'evaluator()'],
+                       cwd=os.path.dirname(os.path.dirname(
+                           os.path.abspath(__file__))), timeout=900,
+                       stdout=subprocess.DEVNULL, stderr=subprocess.DEVNULL)
+    except Exception:
+        pass
     return [dict(name='riemann-%02d' % i, max_examples=n // k)
             for i in range(k)]
 
